@@ -17,7 +17,7 @@ theorem rf_stop (vs N k n se E0 : Int) (hk : 0 < k) (hn : 0 < n)
         (clampN se n = n - 1 ∧ vs + n * k - N ≤ E0)) := by
   rcases clampN_cases se n k hk (le_of_lt hn) with a | a | a | a <;> omega
 
-theorem rf_combine (vs ve N k n se A B Ak Bk nk S E0 E : Int) (hk : 0 < k) (hn : 0 < n)
+theorem rf_combine (vs ve N k n se A B Ak Bk nk S E0 E : Int) (hk : 0 < k) (_hn : 0 < n)
     (h0 : 0 ≤ vs) (h1 : vs ≤ ve) (h2 : ve ≤ N)
     (kit1 : ve - vs ≤ nk) (kit2 : nk < ve - vs + k) (n3 : n - 1 ≤ nk - k)
     (hA : -1 ≤ A ∧ A ≤ n - 1 ∧ S ≤ vs + Ak - N ∧ (0 ≤ A → S = vs + Ak - N))
